@@ -57,7 +57,9 @@ def compare(scene, obs, check_points=True):
         bad("root.library_version", "%r vs %r" % (obs["library_version"], scene.get("library_version")))
     if not cmp_dt(scene.get("creation"), obs["creation"]):
         bad("root.creation", "%r vs encoded %r" % (obs["creation"], scene.get("creation")))
-    ext = sorted((e["ns"], e["url"]) for e in obs["extensions"])
+    # a producer may bind the E57 namespace itself to a prefix; whether the reader lists that declaration among
+    # the extensions is not standard content
+    ext = sorted((e["ns"], e["url"]) for e in obs["extensions"] if e["url"] != "http://www.astm.org/COMMIT/E57/2010-e57-v1.0")
     if ext != [tuple(e) for e in scene["extensions"]]:
         bad("root.extensions", "%r vs encoded %r" % (ext, scene["extensions"]))
     pcs = obs["pointclouds"]
